@@ -308,3 +308,118 @@ def _substitute(e: ast.expr, name: str, repl: ast.expr) -> ast.expr:
                 return ast.parse(ast.unparse(repl), mode="eval").body
             return node
     return T().visit(ast.parse(ast.unparse(e), mode="eval").body)
+
+
+def _is_set_expr(f: FuncInfo, e: ast.expr, depth: int = 0) -> bool:
+    """Expression whose value is certainly a set (iteration order = hash order, randomised per process for str)."""
+    if depth > 4:
+        return False
+    if isinstance(e, (ast.Set, ast.SetComp)):
+        return True
+    if isinstance(e, ast.Call):
+        fn = dotted(e.func) or ""
+        if fn in ("set", "frozenset"):
+            return True
+        if isinstance(e.func, ast.Attribute) and e.func.attr in ("union", "intersection", "difference", "symmetric_difference") and _is_set_expr(f, e.func.value, depth + 1):
+            return True
+    if isinstance(e, ast.BinOp) and isinstance(e.op, (ast.Sub, ast.BitOr, ast.BitAnd, ast.BitXor)):
+        if _is_set_expr(f, e.left, depth + 1) or _is_set_expr(f, e.right, depth + 1):
+            return True
+        # dict views combine to sets: d.keys() - other
+        for side in (e.left, e.right):
+            if isinstance(side, ast.Call) and isinstance(side.func, ast.Attribute) and side.func.attr in ("keys", "items"):
+                return True
+    if isinstance(e, ast.Name):
+        plain = []
+        for n in walk_scope(f.node):
+            if isinstance(n, ast.Assign) and any(isinstance(t, ast.Name) and t.id == e.id for t in n.targets):
+                plain.append(n.value)
+            elif isinstance(n, ast.AnnAssign) and isinstance(n.target, ast.Name) and n.target.id == e.id and n.value is not None:
+                plain.append(n.value)
+        return bool(plain) and all(_is_set_expr(f, d, depth + 1) for d in plain)
+    return False
+
+
+def set_iteration_sites(prog: Program, funcs: list[FuncInfo]) -> list[tuple[FuncInfo, ast.AST, str]]:
+    """Places where the iteration order of a set leaks into ordered output (for loops, comprehensions, enumerate/list/tuple)."""
+    out = []
+    for f in funcs:
+        for n in ast.walk(f.node):
+            it = None
+            if isinstance(n, ast.For):
+                it = n.iter
+            elif isinstance(n, ast.comprehension):
+                par = getattr(n, "_parent", None)
+                if isinstance(par, ast.SetComp):
+                    continue  # building another set: order irrelevant
+                it = n.iter
+            elif isinstance(n, ast.Call) and (dotted(n.func) or "") in ("enumerate", "list", "tuple", "next", "iter", "zip", "numpy.array", "np.array", "np.asarray", "np.fromiter") and n.args:
+                it = n.args[0]
+            if it is None:
+                continue
+            inner = it
+            if isinstance(inner, ast.Call) and (dotted(inner.func) or "") == "enumerate" and inner.args:
+                inner = inner.args[0]
+            if isinstance(inner, ast.Call) and (dotted(inner.func) or "") == "sorted":
+                continue
+            if _is_set_expr(f, inner):
+                out.append((f, n, src(inner)[:60]))
+    return out
+
+
+LIKE_ALLOCATORS = {"zeros_like", "empty_like", "ones_like", "full_like"}
+
+
+def dtype_inheritance_sites(prog: Program, funcs: list[FuncInfo]) -> list[tuple[FuncInfo, ast.AST, str]]:
+    """Computed values stored into an array whose dtype is inherited from a caller-supplied array.
+
+    `out = np.empty_like(x)` / `np.zeros_like(x)` / `x.copy()` / `np.copy(x)` / `np.moveaxis(x, ..).copy()` (x rooted in a parameter or
+    attribute, no dtype= given) followed by `out[...] = <call result>`: for integer (or lower-precision) input the stored values are
+    silently truncated, although the same code is exact for float64 input.
+    """
+    out = []
+    for f in funcs:
+        params = set(f.params) | set(f.kwonly)
+        inherited: dict[str, tuple[str, ast.AST]] = {}
+        for n in walk_scope(f.node):
+            if isinstance(n, (ast.Assign, ast.AnnAssign)) and n.value is not None:
+                tgt = n.targets[0] if isinstance(n, ast.Assign) else n.target
+                if not isinstance(tgt, ast.Name):
+                    continue
+                v = n.value
+                src_arr = None
+                if isinstance(v, ast.Call):
+                    fn = (dotted(v.func) or "")
+                    short = fn.split(".")[-1]
+                    if short in LIKE_ALLOCATORS and v.args and not any(k.arg == "dtype" for k in v.keywords):
+                        src_arr = v.args[0]
+                    elif short == "copy" and fn.startswith(("np.", "numpy.")) and v.args:
+                        src_arr = v.args[0]
+                    elif isinstance(v.func, ast.Attribute) and v.func.attr == "copy" and not v.args:
+                        src_arr = v.func.value
+                    elif short in ("array", "asarray") and v.args and isinstance(v.args[0], ast.Name) and not any(k.arg == "dtype" for k in v.keywords):
+                        src_arr = v.args[0]
+                if src_arr is None:
+                    continue
+                roots = {x.id for x in ast.walk(src_arr) if isinstance(x, ast.Name)}
+                attr_root = any(isinstance(x, ast.Attribute) and isinstance(x.value, ast.Name) and x.value.id == f.self_name for x in ast.walk(src_arr))
+                derived = set()
+                for r in roots - params:
+                    for d_ in _local_defs(f, r):
+                        derived |= {x.id for x in ast.walk(d_) if isinstance(x, ast.Name)} & params
+                if roots & params or derived or attr_root:
+                    inherited[tgt.id] = (src(src_arr)[:40], n)
+        if not inherited:
+            continue
+        for n in walk_scope(f.node):
+            if isinstance(n, ast.Assign) and isinstance(n.targets[0], ast.Subscript):
+                base = n.targets[0].value
+                while isinstance(base, ast.Subscript):
+                    base = base.value
+                if isinstance(base, ast.Name) and base.id in inherited and isinstance(n.value, (ast.Call, ast.BinOp)):
+                    # storing values taken from the same array (permutation/copy) is exact
+                    names = {x.id for x in ast.walk(n.value) if isinstance(x, ast.Name)}
+                    if isinstance(n.value, ast.Subscript):
+                        continue
+                    out.append((f, n, f"`{src(n)[:70]}` stores a computed value into `{base.id}`, whose dtype is inherited from `{inherited[base.id][0]}`"))
+    return out
